@@ -36,6 +36,8 @@ What is stated is what the walkers really return (found by evaluation first, the
 * NumPy (`numpy_split`, `numpy_partitions`, `numpy_no_colon_cut`): `last` = (answer of the line loop of
   `_get_token_last_idx_if_no_next_token`) + 1, never before the body of the last section; when that body has no colon
   (the usual `Returns` section) the footer slice begins at the **second character** of the first body line.
+  Indented NumPy docstrings (`numpy_indented_split`) behave like the absorbed shape: an indented underline is not "a line
+  made of dashes", so neither numpydoc-specific branch is taken.
 * On the union of the domains (`Structured`) `C15.C15_split_full` is a theorem with no ordering hypothesis
   (`C15_split_structured`, `idx_ordered`); the parts are the pieces byte for byte (`exact_parts`), and conversion keeps
   header and footer around the new section (`exact_whence`, `field_…_whence`, `numpy_whence`, `whence_slices`).
@@ -49,7 +51,8 @@ What is stated is what the walkers really return (found by evaluation first, the
 * what follows is **quiet** (`quiet`: scanning it, `_last_doc_str_token` finds nothing) and shaped as the family says;
 * adjacent / absorbed / unterminated / Raises: `2 ≤ |header ++ earlier section lines|` (a newline at an index ≥ 1 before `L`;
   used for `_get_start_of_last_found`; evaluation suggests it is not needed, it is not proved away);
-* NumPy: headings not indented, underline at least as long as the heading, body quiet and without a token at any line start.
+* NumPy: underline at least as long as the heading, body quiet; unindented: no token at any line start of the body;
+  indented: the body starts with white space.
 
 ## Which restrictions are essential
 
@@ -565,6 +568,65 @@ theorem numpy_whence (hs es : List Str) (K D body : Str) (h : numpyDom hs es K D
   · exact Or.inl h1
   · right; rw [hhead] at h1; exact h1
 
+/-- **indented NumPy** docstring (as it sits in a function body): the last heading line `K'` and its underline line `D'`
+    are indented (`D'` by at least one blank), the first heading of the section is followed by an underline that is all
+    dashes after skipping the heading's indentation, the body starts with white space and is quiet -/
+def numpyIndDom (hs es : List Str) (K' D' body : Str) : Bool :=
+  hs.all headerLineOk && es.all lineOk && lineOk K' && lineOk D'
+    && (match es ++ [K', D'] with
+        | F0 :: F1 :: _ => inSet numpySet (lstrip F0) && decide (leadingWs F0 ≤ F1.length) && allDashes (F1.drop (leadingWs F0))
+        | _ => false)
+    && inSet numpySet (lstrip K') && allDashes (lstrip D') && decide ((lstrip K').length ≤ (lstrip D').length)
+    && decide (1 ≤ leadingWs D')
+    && (match body with | [] => false | c :: _ => isSpaceC c) && quiet none [] body
+
+/-- **Indented NumPy split**: `start = |header|`; `last` is that of the absorbed shape — the footer slice is only the last
+    line of the docstring without its indentation (both numpydoc-specific branches test for a line made of dashes
+    *only*, which an indented underline is not) -/
+theorem numpy_indented_split (hs es : List Str) (K' D' body : Str) (h : numpyIndDom hs es K' D' body = true) :
+    idxPair (unlines hs ++ unlines es ++ K' ++ '\n' :: (D' ++ '\n' :: body))
+      = .ok (((unlines hs).length : Int),
+             (((unlines hs ++ unlines es ++ K' ++ '\n' :: (D' ++ '\n' :: body)).length
+                - (absorbedFooter (unlines hs ++ unlines es ++ K' ++ '\n' :: (D' ++ '\n' :: body))).length : Nat) : Int)) := by
+  simp only [numpyIndDom, Bool.and_eq_true, decide_eq_true_eq] at h
+  obtain ⟨⟨⟨⟨⟨⟨⟨⟨⟨⟨hh, hes⟩, hKok⟩, hDok⟩, hF⟩, hK⟩, hD⟩, hKD⟩, hind⟩, hb⟩, hq⟩ := h
+  have hbody : ∃ w ws, body = w :: ws ∧ isSpaceC w = true := by
+    cases body with
+    | nil => cases hb
+    | cons c cs => exact ⟨c, cs, rfl, hb⟩
+  have hd0 : unlines hs ++ unlines es ++ K' ++ '\n' :: (D' ++ '\n' :: body) = unlines (hs ++ es) ++ K' ++ '\n' :: (D' ++ '\n' :: body) := by
+    rw [unlines_append]
+  have hlast := numpy_ind_last (unlines (hs ++ es)) K' D' body (unlines_end _) (lineOk_sound D' hDok) hK hD hKD hind hbody hq
+  rw [← hd0] at hlast
+  have hstart : tokenStartIdx (unlines hs ++ unlines es ++ K' ++ '\n' :: (D' ++ '\n' :: body)).toArray = ((unlines hs).length : Int) := by
+    have hall : ∀ l ∈ es ++ [K', D'], '\n' ∉ l := by
+      intro l hl
+      rcases List.mem_append.mp hl with hl | hl
+      · exact lineOk_sound l (List.all_eq_true.mp hes l hl)
+      · simp only [List.mem_cons, List.not_mem_nil, or_false] at hl
+        rcases hl with hl | hl
+        · rw [hl]; exact lineOk_sound K' hKok
+        · rw [hl]; exact lineOk_sound D' hDok
+    cases hsl : es ++ [K', D'] with
+    | nil => simp at hsl
+    | cons F0 tl =>
+      cases tl with
+      | nil =>
+        have := congrArg List.length hsl
+        simp at this
+      | cons F1 tl' =>
+        rw [hsl] at hF hall
+        simp only [Bool.and_eq_true, decide_eq_true_eq] at hF
+        have hd3 : unlines hs ++ unlines es ++ K' ++ '\n' :: (D' ++ '\n' :: body)
+            = unlines hs ++ F0 ++ '\n' :: (F1 ++ '\n' :: (unlines tl' ++ body)) := by
+          have : unlines hs ++ unlines es ++ K' ++ '\n' :: (D' ++ '\n' :: body) = unlines hs ++ (unlines (es ++ [K', D']) ++ body) := by
+            simp [unlines_append, unlines_cons, unlines_nil]
+          rw [this, hsl]; simp [unlines_cons]
+        rw [hd3]
+        exact numpy_start_ind hs F0 F1 _ hh (hall F0 List.mem_cons_self)
+          (hall F1 (List.mem_cons_of_mem _ List.mem_cons_self)) hF.1.1 hF.1.2 hF.2
+  exact idxPair_of _ _ _ hstart hlast
+
 /-! ## the domain as one predicate, and `C15.C15_split_full` on it -/
 
 /-- the structured docstrings covered by the theorems above (ReST, Google, NumPy; any number of header lines, section
@@ -585,6 +647,8 @@ inductive Structured : Str → Prop
   | singleLine (hs : List Str) (L : Str) (h : singleLineDom hs L = true) : Structured (unlines hs ++ L)
   | numpy (hs es : List Str) (K D body : Str) (h : numpyDom hs es K D body = true) :
       Structured (unlines hs ++ unlines es ++ K ++ '\n' :: (D ++ '\n' :: body))
+  | numpyInd (hs es : List Str) (K' D' body : Str) (h : numpyIndDom hs es K' D' body = true) :
+      Structured (unlines hs ++ unlines es ++ K' ++ '\n' :: (D' ++ '\n' :: body))
 
 /-- **`C15.C15_split_full` restricted to the domain is a theorem** — no ordering hypothesis: on every structured
     docstring the walkers' indices are ordered and the three slices concatenate to the original. -/
@@ -632,6 +696,22 @@ theorem C15_split_structured (d : Str) (s l : Int) (hd : Structured d) (h : idxP
     simp only [Prod.mk.injEq] at h
     rw [← h.1, ← h.2]
     exact ⟨Or.inl (by omega), hpart⟩
+  | numpyInd hs es K' D' body hdom =>
+    have hidx := numpy_indented_split hs es K' D' body hdom
+    rw [hidx] at h
+    injection h with h
+    simp only [Prod.mk.injEq] at h
+    rw [← h.1, ← h.2]
+    have hle : (unlines hs).length ≤ (unlines hs ++ unlines es ++ K' ++ '\n' :: (D' ++ '\n' :: body)).length
+        - (absorbedFooter (unlines hs ++ unlines es ++ K' ++ '\n' :: (D' ++ '\n' :: body))).length := by
+      have h1 := absorbedFooter_le (unlines hs ++ unlines es ++ K' ++ '\n' :: (D' ++ '\n' :: body))
+      have h2 := lastLine_le (unlines hs ++ unlines es ++ K' ++ '\n' :: D') body
+      have e : unlines hs ++ unlines es ++ K' ++ '\n' :: D' ++ '\n' :: body
+          = unlines hs ++ unlines es ++ K' ++ '\n' :: (D' ++ '\n' :: body) := by simp
+      rw [e] at h2
+      simp only [List.length_append, List.length_cons] at h1 h2 ⊢
+      omega
+    exact ⟨Or.inl (by omega), slice_partition _ _ _ (by omega) (Or.inr (Or.inr (by omega)))⟩
 
 /-- `idx_ordered`: on the domain `start ≤ last`, or `last = −1` (no token word at all) -/
 theorem idx_ordered (d : Str) (s l : Int) (hd : Structured d) (h : idxPair d = .ok (s, l)) : s ≤ l ∨ l = -1 :=
@@ -805,10 +885,11 @@ theorem numpy_body_quiet_needed :
         = .ok (49, 149) :=
   ⟨by decide +kernel, idxPair_of_F _ _ (by decide +kernel)⟩
 
-/-- NumPy: **the headings must not be indented** (a docstring as it sits in a function body): the header slice is still
-    exact (15), but the footer slice is empty (last = 119 = the length) -/
-theorem numpy_unindented_needed :
-    inSet numpySet cs!"    Returns" = false
+/-- NumPy, indented (instance of `numpy_indented_split`, and by evaluation): the header slice is exact (15); the footer
+    slice is the last line without its indentation — here empty (last = 119 = the length) -/
+theorem numpy_indented_instance :
+    numpyIndDom [[], cs!"    Summary.", []] [cs!"    Parameters", cs!"    ----------", cs!"    a : int", cs!"        first", []]
+      cs!"    Returns" cs!"    -------" cs!"    bool\n        r\n    " = true
     ∧ idxPair cs!"\n    Summary.\n\n    Parameters\n    ----------\n    a : int\n        first\n\n    Returns\n    -------\n    bool\n        r\n    "
         = .ok (15, 119) :=
   ⟨by decide +kernel, idxPair_of_F _ _ (by decide +kernel)⟩
